@@ -97,6 +97,22 @@ Fixpoint check_classes (ct : ctable) (l : list pystr) : option perr :=
   | c :: r => match check_class ct c with Some e => Some e | None => check_classes ct r end
   end.
 
+(* visiting a list of children left to right, threading the set of captures seen *)
+Definition c_list {A B : Type} (f : A -> list pystr -> cres B) : list A -> list pystr -> cres (list B) :=
+  fix go (l : list A) (seen : list pystr) {struct l} : cres (list B) :=
+    match l with
+    | [] => COk [] seen
+    | x :: r =>
+      match f x seen with
+      | CErr e => CErr e
+      | COk y seen1 =>
+        match go r seen1 with
+        | CErr e => CErr e
+        | COk ys seen2 => COk (y :: ys) seen2
+        end
+      end
+    end.
+
 Section Compile.
   Variable ct : ctable.
   Variable re_ok : pystr -> bool.          (* re.compile(text) succeeds *)
@@ -126,19 +142,11 @@ Section Compile.
       match (match cls with None => None | Some l => check_classes ct l end) with
       | Some e => CErr e
       | None =>
-        match (fix go (fs : list (pystr * fspec)) (seen : list pystr) {struct fs} : cres (list (pystr * matcher)) :=
-                 match fs with
-                 | [] => COk [] seen
-                 | (f, s) :: r =>
-                   match c_fspec s seen with
-                   | CErr e => CErr e
-                   | COk m seen1 =>
-                     match go r seen1 with
-                     | CErr e => CErr e
-                     | COk ms seen2 => COk ((f, m) :: ms) seen2
-                     end
-                   end
-                 end) fs seen with
+        match c_list (fun (fs : pystr * fspec) seen =>
+                        match c_fspec (snd fs) seen with
+                        | CErr e => CErr e
+                        | COk m seen1 => COk (fst fs, m) seen1
+                        end) fs seen with
         | CErr e => CErr e
         | COk content seen' =>
           COk (MNode None (match cls with None => [astnode] | Some l => l end) content) seen'
@@ -159,23 +167,11 @@ Section Compile.
       end
     | FSeq items tail cap =>
       (* sequence(): one matcher per value (with its capture attached), then the '*' matcher *)
-      match (fix go (items : list (vpat * option pystr)) (seen : list pystr) {struct items} : cres (list matcher) :=
-               match items with
-               | [] => COk [] seen
-               | (v, c) :: r =>
-                 match c_vpat v seen with
-                 | CErr e => CErr e
-                 | COk m seen1 =>
-                   match attach m c seen1 with
-                   | CErr e => CErr e
-                   | COk m' seen2 =>
-                     match go r seen2 with
-                     | CErr e => CErr e
-                     | COk ms seen3 => COk (m' :: ms) seen3
-                     end
-                   end
-                 end
-               end) items seen with
+      match c_list (fun (it : vpat * option pystr) seen =>
+                      match c_vpat (fst it) seen with
+                      | CErr e => CErr e
+                      | COk m seen1 => attach m (snd it) seen1
+                      end) items seen with
       | CErr e => CErr e
       | COk ms seen1 =>
         match (match tail with
@@ -323,6 +319,37 @@ Fixpoint desc_origins (n : node) : list origin :=
   | Node _ _ _ _ ks => flat_map (fun k => flat_map (fun m => norigin m :: desc_origins m) (snd (snd k))) ks
   end.
 
+(* the two loops of the _match methods: every sub-matcher in turn, each seeing the captures made so far
+   (local_ctx.update(new_vars); ret_vars.update(new_vars)); the first failure ends the loop *)
+Definition zip_loop {A : Type} (f : A -> mval -> dict -> res) (fin : dict -> dict -> res)
+  : list A -> list mval -> dict -> dict -> res :=
+  fix go (l : list A) (items : list mval) (lctx ret : dict) {struct l} : res :=
+    match l, items with
+    | a :: l', x :: items' =>
+      match f a x lctx with
+      | ROk nv => go l' items' (dupdate lctx nv) (dupdate ret nv)
+      | RFail => RFail
+      | RRaise => RRaise
+      end
+    | _, _ => fin lctx ret                          (* zip is exhausted *)
+    end.
+Definition field_loop {A : Type} (f : A -> mval -> dict -> res) (getf : pystr -> option mval)
+  : list (pystr * A) -> dict -> dict -> res :=
+  fix go (l : list (pystr * A)) (lctx ret : dict) {struct l} : res :=
+    match l with
+    | [] => ROk ret
+    | fa :: l' =>
+      match getf (fst fa) with
+      | None => RFail                                (* not hasattr(value, fname) *)
+      | Some fv =>
+        match f (snd fa) fv lctx with
+        | ROk nv => go l' (dupdate lctx nv) (dupdate ret nv)
+        | RFail => RFail
+        | RRaise => RRaise
+        end
+      end
+    end.
+
 Section Run.
   Variable H : pystr -> pystr.
   Variable ct : ctable.
@@ -401,15 +428,8 @@ Section Run.
           if negb (seq_len_ok (match tail with Some _ => true | None => false end) (length items) (length ms))
           then RFail
           else
-            (fix go (ms0 : list matcher) (items : list mval) (lctx ret : dict) {struct ms0} : res :=
-               match ms0, items with
-               | m1 :: ms', x :: items' =>
-                 match run m1 x lctx with
-                 | ROk nv => go ms' items' (dupdate lctx nv) (dupdate ret nv)
-                 | RFail => RFail
-                 | RRaise => RRaise
-                 end
-               | _, _ =>                        (* zip is exhausted *)
+            zip_loop run
+              (fun lctx ret =>
                  match tail with
                  | None => ROk ret
                  | Some tm =>
@@ -418,8 +438,7 @@ Section Run.
                    | RFail => ROk ret           (* "_, new_vars = ...": the verdict is ignored, vars are {} *)
                    | RRaise => RRaise
                    end
-                 end
-               end) ms items ctx []
+                 end) ms items ctx []
         end
     | MNode name types content =>
       named name v
@@ -427,20 +446,7 @@ Section Run.
         | XN n =>
           if negb (existsb (subclass ct (cls n)) types) then RFail
           else
-            (fix go (cs : list (pystr * matcher)) (lctx ret : dict) {struct cs} : res :=
-               match cs with
-               | [] => ROk ret
-               | (f, m1) :: cs' =>
-                 match attr n f with
-                 | None => RFail
-                 | Some fv =>
-                   match run m1 fv lctx with
-                   | ROk nv => go cs' (dupdate lctx nv) (dupdate ret nv)
-                   | RFail => RFail
-                   | RRaise => RRaise
-                   end
-                 end
-               end) content ctx []
+            field_loop run (attr n) content ctx []
         | _ => RFail
         end
     end.
